@@ -86,3 +86,11 @@ Example ex_pp : lower true [(1, true); (2, false); (3, true)] [10; 11] [SOther 1
   = Some [SOther 1; SSuper; SAssignParam 1; SAssignParam 3; SFieldInit 10; SFieldInit 11; SOther 2]
   /\ forallb user_stmt [SOther 1; SSuper; SOther 2] = true /\ NoDup (map fst [(1, true); (2, false); (3, true)]).
 Proof. split; [reflexivity|]. split; [reflexivity|]. repeat constructor; cbn; intuition; discriminate. Qed.
+
+(* const DEFAULT = 10; namespace Level { export const DEFAULT = 5 } enum Level { Low = DEFAULT } : DEFAULT (100) is lexical,
+   a sibling enum member (101) is a member *)
+Example ex_resolve : resolve_name [200] [(100, false); (101, true); (200, true)] 100 = ROuter
+  /\ resolve_name [200] [(100, false); (101, true); (200, true)] 101 = RMember
+  /\ rt_name [200] [(100, false); (101, true); (200, true)] [(100, VNum 5); (101, VNum 1)] [(100, VNum 10)] 100 = Some (VNum 10)
+  /\ NoDup (map fst [(100, false); (101, true); (200, true)]).
+Proof. repeat split; try reflexivity. repeat constructor; cbn; intuition; discriminate. Qed.
